@@ -155,6 +155,27 @@ pub fn ref_eq(a: &V, b: &V) -> R<bool> {
                 all
             }
         }
+        // objects: equal exactly when they have the same keys and equal members (a key only one of them has makes
+        // them different, whatever it holds)
+        (Obj(x), Obj(y)) => {
+            let mut kx: Vec<&String> = x.iter().map(|(k, _)| k).collect();
+            let mut ky: Vec<&String> = y.iter().map(|(k, _)| k).collect();
+            kx.sort();
+            ky.sort();
+            if kx != ky {
+                false
+            } else {
+                let mut all = true;
+                for (k, p) in x {
+                    let q = &y.iter().find(|(k2, _)| k2 == k).expect("same keys").1;
+                    if !ref_eq(p, q)? {
+                        all = false;
+                    }
+                }
+                all
+            }
+        }
+        (Obj(o), Empty) | (Empty, Obj(o)) => o.is_empty(),
         // different scalar kinds without a truthiness twist
         (Int(_), Str(_)) | (Str(_), Int(_)) | (Float(_), Str(_)) | (Str(_), Float(_)) => false,
         (Nil, Int(_)) | (Int(_), Nil) | (Nil, Str(_)) | (Str(_), Nil) | (Nil, Float(_)) | (Float(_), Nil) => false,
